@@ -34,6 +34,8 @@ enum Op {
     RemoveDir(usize),
     Len(usize),
     Chmod(usize, u32),
+    ListDir(usize),
+    RemoveDirAll(usize),
 }
 
 const DIRS: [&str; 3] = ["d1", "d1/sub", "d2"];
@@ -50,7 +52,7 @@ fn gen(seed: u64) -> Vec<Op> {
         let f = r.below(FILES.len() as u64) as usize;
         let g = r.below(FILES.len() as u64) as usize;
         let s = r.below(3) as usize;
-        v.push(match r.weighted(&[2, 5, 2, 2, 2, 1, 8, 2, 2, 2, 2, 4, 3, 4, 2, 3, 1, 3, 1]) {
+        v.push(match r.weighted(&[2, 5, 2, 2, 2, 1, 8, 2, 2, 2, 2, 4, 3, 4, 2, 3, 1, 3, 1, 4, 1]) {
             0 => Op::MkdirAll(r.below(DIRS.len() as u64) as usize),
             1 => Op::Create(s, f),
             2 => Op::OpenAppend(s, f),
@@ -69,7 +71,9 @@ fn gen(seed: u64) -> Vec<Op> {
             15 => Op::Remove(f),
             16 => Op::RemoveDir(r.below(DIRS.len() as u64) as usize),
             17 => Op::Len(f),
-            _ => Op::Chmod(f, *r.pick(&[0o600u32, 0o644, 0o700])),
+            18 => Op::Chmod(f, *r.pick(&[0o600u32, 0o644, 0o700])),
+            19 => Op::ListDir(r.below(DIRS.len() as u64) as usize),
+            _ => Op::RemoveDirAll(r.below(DIRS.len() as u64) as usize),
         });
     }
     v
@@ -183,6 +187,26 @@ fn execute(base: &str, ops: &[Op]) -> Vec<String> {
             Op::Remove(f) => show(fs::remove_file(p(*f))),
             Op::RemoveDir(d) => show(fs::remove_dir(dpath(*d))),
             Op::Len(f) => show(fs::metadata(p(*f)).map(|m| (if m.is_dir() { 0 } else { m.len() }, m.is_dir()))),
+            Op::ListDir(d) => match fs::read_dir(dpath(*d)) {
+                Ok(rd) => {
+                    // a file system promises no order: compare the sorted listing
+                    let mut v: Vec<String> = vec![];
+                    for e in rd {
+                        match e {
+                            Ok(e) => {
+                                let ft = e.file_type().map(|t| if t.is_dir() { "d" } else { "f" }).unwrap_or("?");
+                                let len = e.metadata().map(|m| if m.is_dir() { 0 } else { m.len() }).map_err(|x| x.raw_os_error());
+                                v.push(format!("{}:{}:{:?}", e.file_name().to_string_lossy(), ft, len));
+                            }
+                            Err(x) => v.push(format!("Err(os {:?})", x.raw_os_error())),
+                        }
+                    }
+                    v.sort();
+                    format!("Ok({:?})", v)
+                }
+                Err(e) => show::<()>(Err(e)),
+            },
+            Op::RemoveDirAll(d) => show(fs::remove_dir_all(dpath(*d))),
             Op::Chmod(f, mode) => {
                 use std::os::unix::fs::PermissionsExt;
                 let r = fs::set_permissions(p(*f), std::fs::Permissions::from_mode(*mode));
